@@ -63,7 +63,7 @@ def parse_case(line):
                 toks.append(q)
                 if q == "name":
                     toks.append(nxt())
-        elif k in ("fail", "ac"):
+        elif k in ("fail", "fail1", "ac"):
             toks.append(nxt())
         elif k == "ap":
             toks += [nxt(), nxt()]
@@ -197,6 +197,24 @@ def sort_list(v):
     return "[" + ",".join(sorted(inner.split(","))) + "]" if inner else "[]"
 
 
+def list_items(v):
+    if not (v.startswith("[") and v.endswith("]")) or len(v) == 2:
+        return []
+    return v[1:-1].split(",")
+
+
+def surplus(impl_rec, spec_rec):
+    """callbacks (listener deliveries, constraint post-commits, tx-complete calls, commit-action runs) of a
+    committed transaction that the spec does not attribute to it: since the spec lists exactly what the
+    accepted changes of THIS transaction announce, anything beyond that comes from work that was undone
+    (a rolled-back earlier transaction of the same context, a failed first attempt of a Batch)"""
+    fa, fs = tx_fields(impl_rec), tx_fields(spec_rec)
+    # as multisets, regardless of the goroutine an entry ran on
+    have = collections.Counter(list_items(fa.get("sync", "[]")) + list_items(fa.get("async", "[]")))
+    want = collections.Counter(list_items(fs.get("sync", "[]")) + list_items(fs.get("async", "[]")))
+    return sorted((have - want).elements())
+
+
 def project_tx(rec, events_on_commit=True):
     """what the properties speak about: outcome without error kind, database, deliveries as
     multisets, commit actions, tx-complete calls.  With events_on_commit=False (C07) the callbacks
@@ -226,6 +244,10 @@ def tx_disagreements(impl_line, spec_line, events_on_commit=True):
             break
         n += 1
         if project_tx(x, events_on_commit) != project_tx(y, events_on_commit):
+            bad.append(i)
+        elif not events_on_commit and tx_fields(x).get("r") == "ok" and surplus(x, y):
+            # C07: "no commit action or listener runs" for failed work — a committed transaction must not
+            # deliver anything that is not its own
             bad.append(i)
     return bad, n
 
@@ -359,6 +381,8 @@ def run_flow(ctx, prop_lc, module, theorems, matchers, nontrivial, rule, table_o
             if where < len(recs):
                 d["impl_projected"] = project_tx(recs[where], events_on_commit)
                 d["spec_projected"] = project_tx(s.split(" | ")[where], events_on_commit)
+                if not events_on_commit:
+                    d["callbacks_not_attributable_to_this_transaction"] = surplus(recs[where], s.split(" | ")[where])
         return d
 
     ctx.coverage.update({
